@@ -212,15 +212,24 @@ PROPS["C01"] = dict(harness="reqmod", module="Cases.ReqCheck", env={"VERIF_PROFI
 PROPS["C02"] = dict(harness="reqmod", module="Cases.ReqCheck", env={"VERIF_PROFILE": "resolve"}, shard=60, codes=_REQ_CODES,
     level_text="C02_selects_node_file: for every tree, every absolute requiring directory and every request the code's candidate order (as written, "
                "incl. the node_modules walk with its duplicate probes) selects the file or failure the Node.js manual's algorithm selects; "
-               "C02_bare_never_relative; C02_invalid; C02_io_error_reported",
+               "C02_bare_never_relative; C02_invalid; C02_io_error_reported; C02_history_independent / C02_node_file_in_every_state: in every state "
+               "reachable by any sequence of requires (any module graph, cycles, failures) a file-or-directory request yields the module of the file "
+               "the stateless probing order - hence the Node.js algorithm - selects, so the caches never change the answer; "
+               "C02_bare_history_independent / C02_bare_node_file_in_every_state: the same for bare names through r.nodeModules (NUL-free "
+               "directory and name); C02_paths_canonical "
+               "(parse/Join/Dir produce clean paths and parse(render p) = p)",
     level_note="Proof is about the candidate lists of Model/Require.v (shared with the stateful model used for C01) against Spec/NodeResolve.v, a "
-               "transcription of 'All together' from the Node manual restricted to what the property claims. Outside: main target missing, exports/"
+               "transcription of 'All together' from the Node manual restricted to what the property claims; Proofs/RequireSelect.v carries the selection "
+               "through the stateful model (SInv: every r.modules key is a loadable file, every r.resolved and r.nodeModules entry is what select "
+               "chooses for its key). Outside: main target missing, exports/"
                "imports, global folders, requests ending in '/', a directory named node_modules directly inside node_modules. The link between "
                "candidate lists and loader calls is validated by the SourceLoader call log of every case. Real-directory configuration with the "
                "default resolver (symlinks) is not exercised.",
     rule="trees with competing candidates for one name at 7 places (file, .js, .json, directory with package.json main valid/empty/invalid/"
          "unreadable, index.js/.json, nested and ancestor node_modules), loader I/O errors, slash-names whose join collides with a child "
-         "directory; 2-6 requests from 5 locations; non-trivial = at least 2 files; distinct by hash",
+         "directory, a main directory that is a package of its own required before the outer package, functions that require lazily "
+         "defined in one directory and called while a module of another directory is being evaluated; 2-8 requests from 5 locations; "
+         "non-trivial = at least 2 files; distinct by hash",
     trusted=_REQ_TRUST, assumptions=["pure path resolver (filepath.Join); linux"])
 PROPS["C15"] = dict(harness="reqmod", module="Cases.ReqCheck", env={"VERIF_PROFILE": "native"}, shard=60, codes=_REQ_CODES,
     level_text="C15_registration_only: in every state reachable by any history of prefixed, unprefixed and file requests, every cached bare or node: "
